@@ -8,7 +8,9 @@ RULE = ("server without RENAMESCRIPT (no VERSION capability): every initial stat
         "PUTSCRIPT, SETACTIVE, DELETESCRIPT answered NO, BYE or not at all — the command either not executed or executed with its reply lost; none) × reply encodings chosen by PRNG, against the reference "
         "server; the store before/after is compared; every call is replayed on the Lean model; non-trivial = old script present")
 
-BODIES = [b"keep;\r\n", b"line1\nline2\n", b"a\r\nb", b"OK\r\nNO\r\n{3}\r\n", b"", b"x\ry\r\n", b"\xc3\xa9\r\n"]
+BODIES = [b"keep;\r\n", b"line1\nline2\n", b"a\r\nb", b"OK\r\nNO\r\n{3}\r\n", b"", b"x\ry\r\n", b"\xc3\xa9\r\n",
+          # characters that are line breaks for str.splitlines but not for the protocol (VT, FF, FS, NEL, LS, PS): content, not line ends
+          b'vacation "a\x0bb\x0cc";\r\n', "# d\u2028e\u2029f\u0085g\r\nkeep;\r\n".encode("utf-8"), b"x\x1cy\x1dz\x1e\r\n"]
 STEPS = ["LISTSCRIPTS", "GETSCRIPT", "PUTSCRIPT", "SETACTIVE", "DELETESCRIPT"]
 
 
